@@ -65,7 +65,10 @@ def conc_job(jid, fam, front, progs, explore, draw=NEVER, prefill=(), mkdirs_ext
     if setup_prog:
         setup_parts.append(part(9, cache, key_ops(setup_prog, name, HS), NEVER))
     if rosetup == "r1":
-        setup_parts.append(part(8, plain("R1"), [op("set", "k", "ro1"), op("set", "k1", "ro1")], NEVER))
+        # the read-only cache is planted by world-building ops (not through a library handle that would write under a read-only root)
+        setup_parts.insert(0, part(7, plain("SRC/none"), [
+            op("mkfile", path="@TOP@/R1/k", key="k", val="ro1", chunks=1, w=8, mode=0o444, mt_ago=300.0, at_ago=420.0),
+            op("mkfile", path="@TOP@/R1/k1", key="k1", val="ro1", chunks=1, w=8, mode=0o444, mt_ago=300.0, at_ago=420.0)], NEVER))
     if setup_parts:
         stages.append(seq_stage(*setup_parts))
     parts = []
@@ -167,6 +170,7 @@ def coverage_mc(tot, design, rule, extra=None):
                ops_conforming_to_Kismet_tla=tot.get("conf_ops", 0),
                drift_first_event=(tot.get("drifts") or [None])[0],
                monitor_antecedents=tot.get("mstats", {}),
+               shared_pool=tot.get("pool"),
                design_level=[dict(cfg=d["cfg"], states=d["states"], transitions=d["transitions"], ok=d["ok"],
                                   never_taken=d.get("never_taken", []), wall_s=round(d.get("wall", 0), 1)) for d in design])
     if extra:
@@ -186,6 +190,131 @@ def design_runs(work, out, names, workers=6):
             out.notes.append("design-level run %s failed: %s" % (n, r["violated"]))
             raise ToolError("design-level model check %s did not pass: %s\n%s" % (n, r["violated"], r["out"][-2500:]))
     return res
+
+
+# ---------------------------------------------------------------------------
+# the shared pool: rich worlds x random histories / schedules, validated by several properties' own monitors
+
+# monitors whose antecedents make sense on the pool's worlds (the others are specific to their check's scenario construction)
+POOL_OK = {"DirValid", "HandleContentOK", "Immutable", "DurableFirst", "ReadOnlyFirst", "Mode0444", "NoErr", "PruneOK", "ReadMarks", "FreshOnWrite",
+           "SeqMapOK", "OneCopy", "UnexplainedLoss", "SrcConsumed", "ROUntouched", "Confined", "OutsideUntouched", "RemovalOK", "DotFilesUntouched",
+           "YoungTempKept", "StaleGone", "HandleModeOK", "PutNeverReplaces", "DebrisConfined", "NoLocks", "TouchMarksFirstOnly", "NoLaterLookups"}
+
+
+def pool_world(rng, wroot_dirs, ro_roots, keys):
+    """World-building ops: dot files, stray directories, temp debris of every age (incl. future-dated), read-only copies."""
+    w = []
+    for d in wroot_dirs:
+        if rng.random() < 0.5:
+            w.append(op("mkfile", path="@TOP@/%s/.appdata" % d, raw="appdata", mt_ago=rng.choice([5000.0, 10.0, -4000.0]), at_ago=0.0))
+        if rng.random() < 0.3:
+            w.append(op("mkdir", path="@TOP@/%s/.appdir" % d))
+            w.append(op("mkfile", path="@TOP@/%s/.appdir/x" % d, raw="x"))
+        if rng.random() < 0.3:
+            w.append(op("mkdir", path="@TOP@/%s/subdir" % d))
+            w.append(op("mkfile", path="@TOP@/%s/subdir/inner" % d, raw="inner"))
+        for i, age in enumerate(rng.sample([30.0, 3500.0, 3700.0, 90000.0, -7200.0], 3)):
+            w.append(op("mkfile", path="@TOP@/%s/.kismet_temp/deb%d" % (d, i), raw="debris", mt_ago=age, at_ago=age))
+        if rng.random() < 0.3:
+            w.append(op("mkdir", path="@TOP@/%s/.kismet_temp/olddir" % d))
+            w.append(op("mkfile", path="@TOP@/%s/.kismet_temp/olddir/f" % d, raw="f", mt_ago=20.0, at_ago=20.0))
+            w.append(op("utimes", path="@TOP@/%s/.kismet_temp/olddir" % d, mt_ago=9000.0, at_ago=9000.0))
+    rokeys = []
+    for (rd, kind) in ro_roots:
+        for k in rng.sample(keys, 2):
+            d = rd if kind == "plain" else "%s/.kismet_%04x" % (rd, rng.randrange(2))
+            if kind != "plain":
+                for i in (0, 1):
+                    w.append(op("mkdir", path="@TOP@/%s/.kismet_%04x" % (rd, i)))
+            ago = rng.choice([500.0, 500.0, -3600.0])
+            w.append(op("mkfile", path="@TOP@/%s/%s" % (d, k[0]), key=k[0], val="ro-%s" % k[0], chunks=1, w=0, mode=0o444, mt_ago=ago, at_ago=ago + rng.choice([120.0, -5.0])))
+            rokeys.append(k[0])
+    return w, sorted(set(rokeys))
+
+
+def pool_jobs(tier_quick=True, want=("seq", "conc"), nseq=None, nconc=None):
+    rng = random.Random(seed() + 4242)
+    jobs = []
+    nseq = nseq if nseq is not None else Q(28, 300)
+    nconc = nconc if nconc is not None else Q(14, 150)
+    plain_keys = [("k%d" % i, (i, i + 100)) for i in range(5)]
+    if "seq" in want:
+        for r in range(nseq):
+            kind = rng.choice(["plain", "sharded", "stack", "stack", "stacksh"])
+            cap = rng.choice([1, 2, 3, 7, 1000000])
+            umask = rng.choice([0o000, 0o002, 0o022, 0o077])
+            keys = plain_keys
+            shardcap = None
+            if kind == "plain":
+                cache, wdirs, ros = plain("W", cap), ["W"], []
+            elif kind == "sharded":
+                cache, wdirs, ros = sharded("W", 2, max(2, cap)), ["W/.kismet_0000", "W/.kismet_0001"], []
+                shardcap = (max(2, cap) + 1) // 2
+            else:
+                ros = [("R1", "plain")] + ([("R2", rng.choice(["plain", "sharded"]))] if rng.random() < 0.5 else [])
+                readers = [plain(rd) if kd == "plain" else {"kind": "sharded", "dir": "@TOP@/" + rd, "shards": 2} for rd, kd in ros]
+                if kind == "stack":
+                    cache, wdirs = stack(plain("W", cap), readers, "none"), ["W"]
+                else:
+                    cache, wdirs = stack(sharded("W", 2, max(2, cap)), readers, "none"), ["W/.kismet_0000", "W/.kismet_0001"]
+                    shardcap = (max(2, cap) + 1) // 2
+            world, rokeys = pool_world(rng, wdirs, ros, keys)
+            nops = rng.choice([8, 14, 22])
+            apis = ["set", "put", "get", "touch"] + (["ensure", "gou", "set_tf", "put_tf"] if cache["kind"] == "stack" else [])
+            prog = []
+            for i in range(nops):
+                api = rng.choice(apis)
+                k, (h, s2) = rng.choice(keys)
+                o = op(api, k, hash=str(h), sec=str(s2), h=0)
+                if api in ("set", "put", "ensure", "gou", "set_tf", "put_tf"):
+                    o["val"] = "v%d" % i
+                    o["chunks"] = rng.choice([1, 1, 2])
+                if api in ("set", "put"):
+                    o["srcmode"] = rng.choice([0o600, 0o644, 0o664, 0o666])
+                if api == "gou":
+                    o["judge"] = rng.choice(["accept", "promote", "replace"])
+                prog.append(o)
+            cfg = {"roots": roots_of(cache), "front": cache["kind"], "cap": cap, "seq": True, "rokeys": rokeys}
+            if shardcap:
+                cfg["shardcap"] = shardcap
+            if cache["kind"] == "stack":
+                cfg["autosync"] = True
+            stages = [seq_stage(part(9, plain("SRC/none"), world, NEVER)),
+                      seq_stage(dict(part(1, cache, with_vals(prog, 1), rng.choice([ALWAYS, NEVER, str(rng.getrandbits(64) | 1)]),
+                                          shard_script=[rng.randrange(8) for _ in range(40)], umask=umask)))]
+            jobs.append(job("POOL-seq-%d" % r, stages, cfg, None, fam="pool:seq:%s:cap%s" % (kind, cap)))
+    if "conc" in want:
+        for r in range(nconc):
+            fr = rng.choice(fronts(rng.choice([1, 3, 100000]), ("plain", "sharded", "stack")))
+            stacked = fr[0].startswith("stack")
+            progs = []
+            for pi in range(rng.choice([2, 2, 3])):
+                pr = []
+                for i in range(rng.choice([1, 2, 3])):
+                    api = rng.choice(["set", "put", "get", "touch"] + (["ensure", "ensure"] if stacked else []))
+                    pr.append(op(api, rng.choice(["k1", "k2", "k3"])))
+                progs.append(pr)
+            jobs.append(conc_job("POOL-conc-%d" % r, "pool:conc:%s" % fr[0], fr, tuple(progs), rnd(Q(6, 30), seed() + 7000 + r),
+                                 draw=rng.choice([ALWAYS, NEVER]), prefill=((("k3", "old3"),) if rng.random() < 0.6 else ()),
+                                 presetup=rng.random() < 0.7))
+    return jobs
+
+
+def add_pool(work, out, st, mons, want=("seq", "conc"), tag="pool"):
+    """Validates the shared pool with this property's monitors and adds what was covered to the check's statistics."""
+    st2 = pool_check(work, out, mons, want=want, tag=tag)
+    for k in ("runs", "events", "states", "violations", "fsmodel_mismatches"):
+        st[k] = st.get(k, 0) + st2.get(k, 0)
+    for k, v in (st2.get("mstats") or {}).items():
+        st.setdefault("mstats", {})
+        st["mstats"][k] = st["mstats"].get(k, 0) + v
+    st["pool"] = dict(runs=st2["runs"], events=st2["events"], monitors=mons, kinds=list(want))
+    return st
+
+
+def pool_check(work, out, mons, want=("seq", "conc"), tag="pool", nseq=None, nconc=None):
+    """Validates the shared pool with this property's own monitors."""
+    return trace_check(work, out, pool_jobs(want=want, nseq=nseq, nconc=nconc), mons, tag=tag)
 
 
 # ---------------------------------------------------------------------------
@@ -216,6 +345,7 @@ def check_C01(work):
         jobs.append(conc_job("C01-%s-3p" % fr[0], "%s:3p" % fr[0], fr, progs, rnd(Q(60, 1500), seed() + 99)))
     mons = ["DirValid", "HandleContentOK", "Immutable"]
     st = trace_check(work, out, jobs, mons, tag="c01", conform=True)
+    st = add_pool(work, out, st, ["DirValid", "HandleContentOK", "Immutable"])
     design = design_runs(work, out, Q(["MCplain2q", "MCshard1", "MCstack2"], ["MCplain2q", "MCplain2", "MCshard1", "MCshard2", "MCstack2", "MCstack3"]))
     cov = coverage_mc(st, design,
                       "schedules of 2-3 participants explored by preemption-bounded DFS / seeded random at system-call granularity; "
@@ -266,6 +396,7 @@ def check_C05(work):
                                      adv=[{"at": at, "path": vpath}]))
     mons = ["NoErr", "DirValid"]
     st = trace_check(work, out, jobs, mons, tag="c05", conform=True)
+    st = add_pool(work, out, st, ["NoErr"])
     design = design_runs(work, out, Q(["MCtouchput", "MCadv", "MCshard1", "MCstack3"], ["MCtouchput", "MCadv", "MCplain2", "MCclean", "MCshard2", "MCstack2", "MCstack3"]))
     cov = coverage_mc(st, design,
                       "capacity-1 caches (every write maintains), missing directories, adversarial deletions of published files at each scheduler step; "
@@ -357,6 +488,7 @@ def check_C16(work):
         cls = "slash" if "/" in nm else "plain"
         return "%s@%s" % (mon, cls)
     st = trace_check(work, out, jobs, mons, tag="c16", key_of=key_of)
+    st = add_pool(work, out, st, ["Confined", "OutsideUntouched"])
     cov = coverage_mc(st, [], "every name of the generated set (all sequences over {a . / \\ non-ASCII} up to length %d plus fixed boundary names) x "
                       "{set,put,get,touch,ensure} x {plain,sharded,stacked}, cache placed inside a sentinel tree; every mutating call and every "
                       "snapshot judged by ConfinedStrict/Rejected*/OutsideUntouched" % (4 if TIER == "thorough" else 3),
@@ -455,6 +587,7 @@ def check_C07(work):
                             cfg_extra={"seq": True, "shardcap": max(1, (total + 1) // 2)}, shard_script=[1] * 8))
     mons = ["PruneOK", "RemovalOK", "DirValid"]
     st = trace_check(work, out, jobs, mons, tag="c07")
+    st = add_pool(work, out, st, ["PruneOK"], want=('seq',))
     design = design_runs(work, out, Q(["MCsc4"], ["MCsc4", "MCsc5"]))
     cov = coverage_mc(st, design, "directory populations (files x mtime rank incl. ties x read mark {atime<mtime, =, >} x stray subdirectory x capacity 0..n+1), "
                       "exhaustive up to n=%d (quick: n<=2 exhaustive + seeded half of n=3) plus seeded n<=12; maintenance entered through raw_cache::prune, "
@@ -498,6 +631,7 @@ def check_C17(work):
         cls = "dotfile" if n.startswith(".") and not n.startswith(".kismet") else "other"
         return "%s@%s" % (mon, cls)
     st = trace_check(work, out, jobs, mons, tag="c17", key_of=key_of)
+    st = add_pool(work, out, st, ["RemovalOK", "DotFilesUntouched", "YoungTempKept", "StaleGone"])
     design = design_runs(work, out, Q(["MCcleanq"], ["MCcleanq", "MCclean"]))
     cov = coverage_mc(st, design, "populations of key files + dot-prefixed application files and directories + .kismet_temp debris aged "
                       "{limit-10s, limit-2s, limit+2s, limit+10s, 1 year} + nested directories, capacities {0,1,n-1,n+1}; plain and sharded; "
@@ -702,6 +836,7 @@ def check_C03(work):
         inj = (evs[0].get("cfg") or {}).get("inject") or {}
         return "%s@%s@%s" % (mon, job.get("fam"), inj.get("call", "clean"))
     st = trace_check(work, out, jobs, mons, tag="c03", key_of=key_of)
+    st = add_pool(work, out, st, ["DurableFirst", "Immutable"])
     ms = st.get("mstats", {})
     design = design_runs(work, out, ["MCstack2", "MCstack3"])
     cov = coverage_mc(st, design, "every publishing API path of the stacked cache (set, put, set_temp_file, put_temp_file, ensure miss/hit/promote, get_or_update "
@@ -815,6 +950,9 @@ def matrix_check(work, prop, mons, checkers, frac, rule, extra_jobs=(), umasks=(
             jobs.append(stack_job("%s-ro-%d" % (prop, i), pt, i, ro_only=True))
     jobs += list(extra_jobs)
     st = trace_check(work, out, jobs, mons, tag=prop.lower())
+    pm = [m for m in mons if m in POOL_OK]
+    if pm:
+        st = add_pool(work, out, st, pm)
     design = design_runs(work, out, ["MCstack"])
     cov = coverage_mc(st, design, rule, dict(matrix_points_total=len(pts), matrix_points_run=len(chosen), jobs=len(jobs), monitors=mons,
                                              exhaustive=(frac >= 1.0)))
@@ -1205,6 +1343,7 @@ def check_C04(work):
     jobs.append(conc_job("C04-ens-3p", "stack:3p:ensure", stackf, ([E(k)], [E(k)], [E(k)]), rnd(Q(100, 1500), seed() + 77), cfg_extra={"key": k}))
     # step form of the register refinement on the same executions
     st0 = trace_check(work, out, jobs, ["PutNeverReplaces", "DirValid"], tag="c04")
+    st0 = add_pool(work, out, st0, ["PutNeverReplaces"])
     tfiles = st0["files"]
     res = validate_traces(work, "TraceLin", tfiles, {"monitors": []}, tag="c04l")
     byjob = {j["id"]: j for j in jobs}
@@ -1305,6 +1444,7 @@ def check_C11(work):
             jobs.append(job("C11-%s-%d" % (fname, r), [seq_stage(p1)], cfg, None, fam=fname))
     mons = ["SeqMapOK", "OneCopy", "UnexplainedLoss", "SrcConsumed", "PruneOK", "DirValid", "HandleContentOK", "RemovalOK"]
     st = trace_check(work, out, jobs, mons, tag="c11")
+    st = add_pool(work, out, st, ["SeqMapOK", "OneCopy", "UnexplainedLoss", "SrcConsumed", "PruneOK"], want=('seq',))
     design = design_runs(work, out, Q(["MCsc4", "MCshard1"], ["MCsc4", "MCclean", "MCshard1"]))
     cov = coverage_mc(st, design, "seeded sequential histories (12-40 operations quick, up to 200 thorough) of set/put/get/touch(/ensure) over <= 6 keys through 1-3 independent "
                       "handles on the same directories; plain (capacities 1, 2, 4, 9, huge), sharded (2-8 shards, total capacity n .. 3n+1 and huge; key hashes chosen to "
@@ -1357,6 +1497,7 @@ def check_C09(work):
                 jobs.append(j)
     mons = ["ReadMarks", "FreshOnWrite", "SeqMapOK", "DirValid", "Immutable"]
     st = trace_check(work, out, jobs, mons, tag="c09")
+    st = add_pool(work, out, st, ["ReadMarks", "FreshOnWrite"], want=('seq',))
     design = design_runs(work, out, Q(["MCatime_relatime_3", "MCatime_noatime_3"], ["MCatime_relatime_3", "MCatime_noatime_3", "MCatime_strict_1", "MCatime_relatime_1", "MCatime_noatime_1", "MCatime_strict_3"]))
     cov = coverage_mc(st, design, "operation sequences (seeded, and all 64 triples of {set, put, get, touch} on one key) on plain / sharded / stacked front ends, issued back to back, "
                       "under tracer emulations of the access-time policy {kernel relatime, no-atime (O_NOATIME forced on every open), strict atime} x stored timestamp "
